@@ -343,6 +343,30 @@ std::vector<Step> mt_project_loop(Rng& r, int c, int rounds, int K) {
 	return out;
 }
 
+// the same operand is projected again through the same (pooled) functor object after the first projection has been
+// destroyed: whatever a functor remembers between calls must not outlive the nodes it points to
+std::vector<Step> mt_reproject_loop(Rng& r, int c, int rounds, int K) {
+	std::vector<Step> out; int n = 0; long f = long(r.below(2));
+	out.push_back(gen::mk(c, "mt_make", {0, long(1 + r.below(6)), long(r.below(2))}, rand_asgn(r, K))); ++n;
+	int parts = r.range(1, 3);
+	for (int k = 0; k < parts; ++k) {
+		out.push_back(gen::mk(c, "mt_make", {0, long(1 + r.below(6)), long(r.below(2))}, rand_asgn(r, K))); ++n;
+		out.push_back(gen::mk(c, "mt_apply2", {n - 2, n - 1, long(r.chance(1, 2) ? 1 : 6), 0})); ++n;
+		out.push_back(gen::mk(c, "mt_destroy", {n - 2, 0})); --n; out.push_back(gen::mk(c, "mt_destroy", {n - 2, 0})); --n;
+	}
+	// handle 0 is the operand A from here on
+	for (int i = 0; i < rounds; ++i) {
+		long mask = long(1 + r.below((1u << K) - 1));
+		out.push_back(gen::mk(c, "mt_project", {0, mask, f, 0})); ++n;
+		if (r.chance(1, 3)) { out.push_back(gen::mk(c, "mt_copy", {n - 1, 0})); ++n; out.push_back(gen::mk(c, "mt_destroy", {n - 1, 0})); --n; }
+		out.push_back(gen::mk(c, "mt_destroy", {n - 1, 0})); --n;                                        // the projection dies
+		if (r.chance(1, 2)) { out.push_back(gen::mk(c, "mt_make", {0, long(1 + r.below(6)), long(r.below(2))}, rand_asgn(r, K))); ++n; if (r.chance(1, 2)) { out.push_back(gen::mk(c, "mt_destroy", {n - 1, 0})); --n; } }
+		out.push_back(gen::mk(c, "mt_project", {0, r.chance(2, 3) ? mask : long(1 + r.below((1u << K) - 1)), f, 0})); ++n;      // ... and is asked for again
+		if (n > 5) { out.push_back(gen::mk(c, "mt_destroy", {long(1 + r.below(uint64_t(n - 1))), 0})); --n; }
+	}
+	return out;
+}
+
 } // namespace
 
 namespace vsim {
@@ -368,8 +392,9 @@ Plan plan_C18(Rng& r, const std::string&) {
 	Plan p; p.env = gen::gen_env(r); if (r.chance(1, 2)) p.env.reuse = simheap::R_LIFO;     // a premature release is reused at once
 	int ncl = r.range(1, 4), K = r.range(1, 6); bool listed = !r.chance(1, 5);
 	std::vector<std::vector<Step>> progs;
-	for (int c = 0; c < ncl; ++c) progs.push_back(mt_program(r, c, r.range(8, 30), K, listed, r.chance(1, 2)));
-	finish(p, r, progs, 30);
+	bool reproject = !listed && r.chance(1, 2);
+	for (int c = 0; c < ncl; ++c) progs.push_back(reproject && c == 0 ? mt_reproject_loop(r, c, r.range(2, 8), r.range(1, 4)) : mt_program(r, c, r.range(8, 30), K, listed, r.chance(1, 2)));
+	finish(p, r, progs, reproject ? 10 : 30);
 	return p;
 }
 
